@@ -14,13 +14,20 @@
    It does NOT hold, even after the fixes, when an already installed version is re-installed (the old copy is
    removed before the new one is renamed into place): finding class reinstall-window, witness below.
    Proved here (hence `_partial`): every crash point and torn length of
-     - an Install of a version whose directory does not exist yet, for a plugin that already has a directory
-       (upgrade_ok; the first installation of a plugin, which creates that directory, is covered by the
-       differential run only), stated per database and for every database configuration at once;
+     - an Install of a version whose directory does not exist yet — for a plugin that already has a directory
+       (C27_crash_safe_partial, upgrade_ok) and for the FIRST installation of a plugin, whose repository / plugin
+       directories are created before the rename (C27_crash_safe_first_installation, first_ok; plugins/ itself may
+       be missing) — stated per database and for every database configuration at once;
      - AddRepository, in full.
+   Together these cover every Install into a fresh version directory; the only Install outside the theorems is the
+   re-installation over an existing version directory (finding reinstall-window).
    The JSON written for the handler file / repository entry is proved to decode again (Proofs/PluginsJson.v:
-   json_roundtrip), for names, extensions and URLs of printable ASCII without quote, backslash, <, >, &. *)
-From Octo Require Import Plugins PluginsFs PluginsJson PluginsFsProofs.
+   json_roundtrip), for names, extensions and URLs of printable ASCII without quote, backslash, <, >, &.
+   C27_new_binary_complete_general: once renamed into place the new binary has the archive member's content, for both
+   kinds of fresh installation and whatever an earlier interrupted installation left in .staging.
+   C27_reinstall_safe_before_window: a re-installation is safe at every crash point up to the first removal of the
+   old copy — the finding class starts exactly there. *)
+From Octo Require Import Plugins PluginsFs PluginsJson PluginsFsProofs PluginsFsProofs2.
 
 (* Install, every crash point k and every torn length: for every database d (not of the reserved repository name
    ".staging") start-up decides exactly what it decided before — or, only after the rename (k beyond the staging
@@ -37,6 +44,34 @@ Proof. exact install_crash_safe. Qed.
 Print Assumptions C27_crash_safe_partial.
 
 
+(* The first installation of a plugin: its directory (and possibly the repository directory and plugins/ itself) does
+   not exist; MkdirAll creates them — visible to the listing as an empty plugin entry — before the staged version is
+   renamed into place.  Same conclusion, every crash point k and every torn length: every database keeps exactly the
+   start-up decision it had (a database of the new plugin had none: it stays unresolved until the rename), or gets the
+   installed version after the rename; no complete binary is touched.
+   first_ok: the plugin directory is absent, no other directory of that repository maps to the same plugin name, the
+   repository directory is absent exactly when plugins/ does not list it. *)
+Theorem C27_crash_safe_first_installation : forall f0 i k torn d,
+  first_ok f0 i -> db_repo d <> staging_name ->
+  let f := crash (install_ops f0 i) f0 k torn in
+  (startup_db f d = startup_db f0 d \/
+   (startup_db f d = Ok (Some (i_version i)) /\ is_ok (startup_db f0 d) = true /\
+    db_plugin d = i_name i /\ db_repo d = i_repo i /\ (length (phaseA f0 i) < k)%nat))
+  /\ (forall v c, binary_of f0 d v = Some (File c) -> binary_of f d v = Some (File c)).
+Proof. exact install_first_crash_safe. Qed.
+Print Assumptions C27_crash_safe_first_installation.
+
+(* Non-vacuity: core/json installed for the first time next to core/pg 1.0.0 (and on an empty ~/.octosql): the
+   hypotheses hold; killed after the plugin directory was created (step 10) the pg database still runs 1.0.0; after
+   the complete run a json database runs 2.0.0. *)
+Example C27_first_installation_satisfiable :
+  first_ok Witness2.f1 Witness.inst200 /\ first_ok [] Witness.inst200 /\
+  startup_db Witness2.f1 Witness2.dbpg = Ok (Some Witness.v100) /\
+  startup_db (crash (install_ops Witness2.f1 Witness.inst200) Witness2.f1 10 0) Witness2.dbpg = Ok (Some Witness.v100) /\
+  startup_db (crash (install_ops Witness2.f1 Witness.inst200) Witness2.f1 (length (install_ops Witness2.f1 Witness.inst200)) 0) Witness.db
+    = Ok (Some Witness.v200).
+Proof. split; [exact first_ok_witness|]. split; [exact first_ok_empty|exact first_witness_result]. Qed.
+
 (* Once the version directory has been renamed into place (k beyond the staging phase), the plugin binary of the new
    version is there with exactly the content of the archive member — at every later crash point and torn length.
    (Stated for an empty staging directory at the start, archive member names distinct and different from
@@ -50,6 +85,26 @@ Theorem C27_new_binary_complete : forall f0 i k torn c,
   fs_get (crash (install_ops f0 i) f0 k torn) (N i ++ [dir_of (i_name i)]) = Some (File c).
 Proof. exact install_new_binary. Qed.
 Print Assumptions C27_new_binary_complete.
+
+(* The same without any assumption on what .staging held at the start (RemoveAll is proved to empty it), and for the
+   first installation of a plugin as well: after the rename, at every crash point and torn length, the binary of the
+   new version is the archive member, byte for byte.  archive_ok: member names distinct, none is archive.tar.gz, one is
+   the plugin binary. *)
+Theorem C27_new_binary_complete_general : forall f0 i k torn c,
+  upgrade_ok f0 i \/ first_ok f0 i -> archive_ok i c -> (length (phaseA f0 i) < k)%nat ->
+  fs_get (crash (install_ops f0 i) f0 k torn) (N i ++ [dir_of (i_name i)]) = Some (File c).
+Proof. exact install_new_binary_general. Qed.
+Print Assumptions C27_new_binary_complete_general.
+
+(* Re-installation (the version directory may exist): every crash point up to and including the end of the staging
+   phase (k <= window_start = the index of the first removal of the old copy) leaves start-up and every binary exactly
+   as they were.  The finding class reinstall-window is the crash points after that and before the rename. *)
+Theorem C27_reinstall_safe_before_window : forall f0 i k torn d,
+  dirs_ok f0 i -> db_repo d <> staging_name -> (k <= window_start f0 i)%nat ->
+  let f := crash (install_ops f0 i) f0 k torn in
+  startup_db f d = startup_db f0 d /\ (forall v, binary_of f d v = binary_of f0 d v).
+Proof. exact install_safe_before_window. Qed.
+Print Assumptions C27_reinstall_safe_before_window.
 
 (* The flat JSON that Install and AddRepository write decodes to what was encoded. *)
 Theorem C27_json_roundtrip : forall m, Forall safe_pair m -> json_decode (json_encode m) = Some m.
